@@ -540,8 +540,12 @@ class LibHarness(Harness):
         return True
 
     def on_panic(self, ctx, ex, e, res):
+        try:
+            m = ctx.model() or {}
+        except Exception:
+            m = {}
         for pfx in ('C04', 'C12', 'C20', 'C03'):
-            ctx.violations.append({'law': pfx + '.library-operations-do-not-panic', 'model': {},
+            ctx.violations.append({'law': pfx + '.library-operations-do-not-panic', 'model': m,
                                    'info': {'msg': res['detail'], 'where': res.get('where'), 'input': getattr(ctx, 'input_desc', None)}})
 
     def finish_violation(self, ctx, v):
@@ -581,6 +585,16 @@ class LibHarness(Harness):
         v['replay_result'] = {'differences': diffs, 'incremental': {k: oi[k] for k in diffs}, 'fresh': {k: of[k] for k in diffs}}
         law = v['law']
         if law.endswith('.library-operations-do-not-panic'):
+            # the lookups at a line are not part of the standard script: try the model's line and the first lines of every note
+            line = (v.get('model') or {}).get('line', 0)
+            for k in keys:
+                for ln in [line] + list(range(0, 8)):
+                    for scr in (inc_s, fresh_s):
+                        r = driver.run(scr + [{'op': 'node_id_at', 'key': k, 'line': ln}])
+                        if any(isinstance(x, dict) and 'panic' in x for x in r):
+                            v['replay_verdict'] = 'native panic in get_node_id_at(%s, %d): %s' % (k, ln, [x for x in r if isinstance(x, dict) and 'panic' in x][0]['panic'][:80])
+                            v['replay_script'] = scr + [{'op': 'node_id_at', 'key': k, 'line': ln}]
+                            return True
             v['replay_verdict'] = 'no native panic'
             return False
         if law == 'C18.paths-after-edit-equal-fresh-start':
